@@ -73,18 +73,50 @@ Opt(name) ==
 AwaitYield == {"export const s = async () => <C>{await f()}</C>;", "export function* g() { yield <C>{yield 1}</C>; }",
                "export const s = async () => <C><b>{await f()}</b>t</C>;"}
 
+(* ---- C08: self- and mutually-referential type declarations, empty runtime types (resolveType) ---- *)
+TsHead == "import { defineComponent, type SetupContext } from 'vue';\n"
+TsForms == {
+  "type P = P; export const C = defineComponent((props: P) => () => null);",
+  "type P = Q; type Q = P; export const C = defineComponent((props: P) => () => null);",
+  "type P = { a: string } & P; export const C = defineComponent((props: P) => () => null);",
+  "interface A extends A { a: string } export const C = defineComponent((props: A) => () => null);",
+  "interface A extends B { a: string } interface B extends A { b: string } export const C = defineComponent((props: A) => () => null);",
+  "interface A extends B {} interface B extends C {} interface C extends A {} export const C1 = defineComponent((props: A) => () => null);",
+  "type P = Partial<P>; export const C = defineComponent((props: P) => () => null);",
+  "type P = Pick<P, 'a'>; export const C = defineComponent((props: P) => () => null);",
+  "type P = P['a']; export const C = defineComponent((props: P) => () => null);",
+  "type K = K; type T = { a: string }; export const C = defineComponent((props: Pick<T, K>) => () => null);",
+  "type T = { a: T2 }; type T2 = T2 | string; export const C = defineComponent((props: T) => () => null);",
+  "type T = { a: R }; type R = R[]; export const C = defineComponent((props: T) => () => null);",
+  "type T = { a: NonNullable<R> }; type R = NonNullable<R>; export const C = defineComponent((props: T) => () => null);",
+  "type E = E; export const C = defineComponent((props: { a?: string }, ctx: SetupContext<E>) => () => null);",
+  "type N = N; export const C = defineComponent((props: { a?: string }, ctx: SetupContext<(e: N) => void>) => () => null);",
+  "interface E extends E { (e: 'x'): void } export const C = defineComponent((props: {}, ctx: SetupContext<E>) => () => null);",
+  "export const C = defineComponent((props: { a: NonNullable<null> }) => () => null);",
+  "export const C = defineComponent((props: { a: NonNullable<undefined>, b: {}['x'] }) => () => null);",
+  "type T = { x: string }; export const C = defineComponent((props: { a: T['nope'], b: [string][5] }) => () => null);",
+  "export const C = defineComponent((props: { a: never, b: void, c: undefined }) => () => null);",
+  "export const C = defineComponent((props: { [k: string]: number }) => () => null);",
+  "export const C = defineComponent((props: { 1: string, [Symbol.iterator]: number, ['x' + 'y']: boolean }) => () => null);",
+  "export const C = defineComponent();", "export const C = defineComponent(...[]);", "export const C = defineComponent(function () {}, ...[{}]);",
+  "export const C = defineComponent(({ a }: { a: string } = { a: 'x' }, [c]: SetupContext<() => void>) => () => null);",
+  "export const C = defineComponent(function (this: any, props: { a: string }) { return () => null });",
+  "const { C } = { C: defineComponent((props: { a: string }) => () => null) }; export { C };"
+}
+
 Mk(kind, head, text, o) == [kind |-> kind, head |-> head, text |-> text, opts |-> o]
 Raws == {Mk("unusual", <<>>, t, Opt(o)) : t \in Unusual, o \in OptSets}
         \cup {Mk("pragma", <<p>>, t, Opt(o)) : p \in Pragmas, t \in PragmaBodies, o \in OptSets \cap {"default", "pragma"}}
         \cup {Mk("pragma_mid", <<"const q = 1;", p>>, t, Opt("default")) : p \in Pragmas, t \in PragmaBodies}
         \cup {Mk("dirform", <<>>, t, Opt(o)) : t \in DirForms, o \in OptSets \cap {"default", "optimize"}}
         \cup {Mk("deep", <<>>, t, Opt(o)) : t \in DeepForms, o \in {"optimize"}}
+        \cup {Mk("ts", <<>>, TsHead \o t, Opt("all")) : t \in TsForms}
         \cup {Mk("await_yield_in_slot", <<>>, t, Opt(o)) : t \in AwaitYield, o \in OptSets \cap {"default", "none"}}
 
 CaseSeq ==
   LET raw == SetToSeq(Raws) IN
   [i \in 1..Len(raw) |->
-     [case |-> "G-" \o ToString(i), prop |-> "C07", opts |-> raw[i].opts, kind |-> raw[i].kind, lang |-> "jsx",
+     [case |-> "G-" \o ToString(i), prop |-> "C07", opts |-> raw[i].opts, kind |-> raw[i].kind, lang |-> IF raw[i].kind = "ts" THEN "tsx" ELSE "jsx",
       head |-> raw[i].head, items |-> <<Raw(raw[i].text)>>]]
 
 ASSUME PrintT(<<"CASES", Len(CaseSeq)>>)
